@@ -16,8 +16,18 @@ _m(
     "Fortran-strided via x.t().contiguous().t() | torch.from_numpy(np.asfortranarray(x)) | strided slice big[::2, ::2] | "
     "inner slice big[:, 1:-1] | 3-D permute-and-select view | for an all-True mask a stride-0 expand view; backing storage "
     "outside the view is NaN/True filler; 1-D bf vectors: contiguous | big[::2] | big[1:-1]; drawn independently for the "
-    "phase, the mask, bf_mask, complex_data_bf and mask_bf; classes layout:<arg>=<layout>); six strata (no mask / masked wrapped / masked already-unwrapped / bf route / seam / Poisson) each get their own "
-    "run; the seam stratum draws periodic grids (wrap_around=True) that are thin (1xW, 2xW, Hx1, Hx2; four in six), narrow "
+    "phase, the mask, bf_mask, complex_data_bf and mask_bf; classes layout:<arg>=<layout>); x MASK ENCODING on the direct and Poisson routes (both unwrappers cast the mask with .to(torch.bool), so a pixel "
+    "is valid iff its value is non-zero: bool | uint8 | int8/16/32/64 | float16/32/64 with the valid pixels carrying 1, the "
+    "dtype's max / min, a power of two, a drawn value, a fraction, a tiny float, or per-pixel gray values; classes "
+    "mask_enc:<dtype>/<kind>); seven strata (no mask / masked wrapped / masked already-unwrapped / bf route / seam / seamwrap "
+    "/ Poisson) each get their own run; the seamwrap stratum draws corner-centred (FFT-layout) regions on periodic 6..24 "
+    "grids - a disc or square around index (0,0) or the overlap lune of two such discs, the geometry DirectPtychography "
+    "passes, connected only through the seam - with a corner-centred tilt (axis-aligned four times in five) plus an optional "
+    "small corner-centred quadratic/Gaussian/band-limited/noise term, total in-mask range optionally limited (gentle "
+    "fields), and the piston chosen so that the wrap level (2n+1)pi lies between two chosen neighbouring pixels (the seam "
+    "pair at DC three times in five, another seam pair, or an interior pair), through the bf route (two in three; bf_mask = "
+    "the full disc, the region, everything or a dilation) and the direct route; class wraps_only_across_seam = the wrap "
+    "count differs across at least one seam pair and across no interior pair; the seam stratum draws periodic grids (wrap_around=True) that are thin (1xW, 2xW, Hx1, Hx2; four in six), narrow "
     "(3xW, Hx3) or regular (8..18 square-ish), long side >= 8, with band masks - a band of columns and/or rows that does not "
     "touch the border is removed (plus up to 2 single-pixel holes), so the remaining strips are connected only through the "
     "periodic seam - and a dominant harmonic of order 1-2 along the cut axis (frac >= 0.8) so the field really wraps, through "
@@ -33,11 +43,14 @@ _m(
         "connected components come from the harness (scipy.sparse.csgraph on its own pixel-pair list, cross-checked "
         "against scipy.ndimage.label on bounded grids), never from quantem",
         "tolerance 1e-4*(1+max|k|) rad for 'constant' and twice that for 'integer multiple of 2pi' (two pixels' errors): "
-        "quantem adds float32(2*pi*k); measured clean-tree error <= 1.3e-6*(1+max|k|); a wrong unwrap is off by 2*pi",
+        "quantem adds float32(2*pi*k); measured clean-tree error <= 1.9e-6*(1+max|k|); a wrong unwrap is off by 2*pi",
         "values outside the mask are finite (wrapped field, zeros as the real caller passes, or noise); for already-"
         "unwrapped input they stay within the in-mask value range so the global-mean subtraction cannot cancel in float32",
         "the result is a function of the values only: every layout is checked by the harness to hold exactly the same "
         "values (torch.equal) before the call, and the oracle is the same for all layouts",
+        "mask semantics for non-bool masks ('non-zero = valid') are read from the explicit .to(torch.bool) in both "
+        "unwrappers, not from the property statement, which only speaks of mask shapes; the bf wrapper is only given bool "
+        "masks (it rejects other dtypes)",
         "no claim is checked on pixels outside the mask; the Poisson solver is outside the exactness claim",
     ],
     workers=(1, 16),
